@@ -487,6 +487,25 @@ impl Area for A {
                             (_, false, 7..=8) => M_CANCEL_R_WD,
                             _ => M_QC_P_WD,
                         };
+                        if fin == M_TIMED {
+                            // around the deadline: minute of initiation + delay, +/- a little
+                            if let Some(d) = g.delay {
+                                if (d as u64) <= 100_000 && rng.chance(4, 5) {
+                                    let deadline = (g.secs / 60 + d as u64) * 60;
+                                    let t = match rng.below(6) {
+                                        0 => deadline.saturating_sub(1),
+                                        1 => deadline.saturating_sub(60),
+                                        2 => deadline + rng.below(60),
+                                        3 => deadline + 60 + rng.below(600),
+                                        _ => deadline,
+                                    };
+                                    if t >= g.secs {
+                                        g.secs = t;
+                                        writeln!(out, "time {}", g.secs).unwrap();
+                                    }
+                                }
+                            }
+                        }
                         // the confirming party: mostly another single badge, sometimes the proposer itself
                         let mask = match rng.below(10) {
                             0 => own,
@@ -505,6 +524,20 @@ impl Area for A {
                         if matches!(fin, M_QC_P_WD | M_QC_R_WD) && rng.chance(3, 4) {
                             i = len; // after a withdrawal every role is DenyAll: little left to explore
                         }
+                    }
+                    55..=62 => {
+                        // lock / proof / unlock fragment
+                        let rec = mask_of_rule(rng, &g.cur[1].clone());
+                        let prim = mask_of_rule(rng, &g.cur[0].clone());
+                        g.call(rng, out, rec, M_LOCK, None);
+                        let who = if rng.chance(4, 5) { prim } else { gen_mask(rng) };
+                        g.call(rng, out, who, M_CREATE_PROOF, None);
+                        if rng.chance(1, 2) {
+                            let u = if rng.chance(3, 4) { rec } else { prim };
+                            g.call(rng, out, u, M_UNLOCK, None);
+                            g.call(rng, out, prim, M_CREATE_PROOF, None);
+                        }
+                        i += 2;
                     }
                     _ => {
                         let m = rng.below(METHODS.len() as u64) as usize;
